@@ -31,7 +31,7 @@ theorem ctx?_sibling {f : Forest} (w : f.W) {x : Nat} {c : Ctx} (e : f.ctx? x = 
     List.Sublist.nodup (findList?_sublist _ _ _ hg) w.nodup
   unfold handles at hn
   have hn2 := (List.nodup_cons.1 hn).2
-  rw [handlesList_append, show handlesList (c.self :: c.right) =
+  rw [fa_handlesList_append, show handlesList (c.self :: c.right) =
     handles c.self ++ handlesList c.right from rfl] at hn2
   have hn3 := List.nodup_append.1 hn2
   have hxs : x ∈ handles c.self := hh ▸ handle_mem_handles c.self
